@@ -99,8 +99,8 @@ const (
 	brkNumber
 	brkBool
 	brkArray
-	brkNull     // (not in C08's list: used by C04 only)
-	brkCaseName // the pointer names an entry that differs from an existing one by letter case only
+	brkNull        // (not in C08's list: used by C04 only)
+	brkCaseName    // the pointer names an entry that differs from an existing one by letter case only
 	brkUnsetMember // the pointer goes one token further, into a member the target's type knows but the target does not hold
 	nBreaks
 )
